@@ -321,6 +321,22 @@ impl CodegenContext {
         Ok(())
     }
 
+    /// The values of all symbols, in a form that can be compared between passes
+    fn symbol_values(&self) -> Vec<(String, String)> {
+        self.symbols
+            .all()
+            .into_iter()
+            .map(|(path, (_, symbol))| {
+                let value = match &symbol.data {
+                    SymbolData::MacroDefinition(_) => "<macro>".to_string(),
+                    data => data.to_string(),
+                };
+                (path.to_string(), value)
+            })
+            .sorted()
+            .collect()
+    }
+
     fn after_pass(&mut self) -> CoreResult<()> {
         self.register_all_segment_symbols()?;
         Ok(())
@@ -1461,6 +1477,7 @@ pub fn codegen(
 
     let mut prev_undefined = HashSet::new();
     let mut prev_errors = Diagnostics::default().with_code_map(&ctx.tree.code_map);
+    let mut prev_symbol_values = vec![];
 
     let mut errors = Diagnostics::default().with_code_map(&ctx.tree.code_map);
     ctx.pass_idx = 0;
@@ -1472,6 +1489,7 @@ pub fn codegen(
             }
         }
         ctx.after_pass().expect("Could not finalize pass");
+        let symbol_values = ctx.symbol_values();
 
         #[cfg(feature = "verif")]
         if verif::observe(verif::pass_info(
@@ -1520,9 +1538,12 @@ pub fn codegen(
 
             // If there were no other errors, then we should see if there was anything undefined.
             if errors.is_empty() {
-                // Nothing undefined anymore? Then we're done!
+                // Nothing undefined anymore? Then we're done, provided that this pass did not define or change any symbol:
+                // a symbol that appeared during this pass may shadow the symbol that an earlier reference was resolved to.
                 if ctx.undefined.is_empty() {
-                    break;
+                    if symbol_values == prev_symbol_values {
+                        break;
+                    }
                 } else {
                     // If the same symbols are undefined that were undefined in the previous pass, they are truly undefined.
                     if ctx.undefined == prev_undefined {
@@ -1552,6 +1573,7 @@ pub fn codegen(
 
         prev_errors = errors;
         errors = Diagnostics::default().with_code_map(&ctx.tree.code_map);
+        prev_symbol_values = symbol_values;
 
         ctx.next_pass();
     }
